@@ -95,6 +95,10 @@ unsigned long f_callc(unsigned long (*cb)(char, bool, long long, float, Color, u
 int g_lib_id(void);
 int g_lib_id_indirect(void);
 long g_add3(long a, int b, unsigned short c);
+double g_call_d(double (*cb)(double, float), double a, float b);
+long long g_call_ll(long long (*cb)(long long, unsigned char), long long a, unsigned char b);
+float g_call_f(float (*cb)(float), float a);
+unsigned long g_call_ul(unsigned long (*cb)(unsigned long, short), unsigned long a, short b);
 }
 
 enum FnId
@@ -334,6 +338,56 @@ static rlbox::tainted<unsigned long, Sbx> app_cbC(Sandbox& sb,
   return g_cbc_ret;
 }
 
+// callbacks on the host-ABI backends (noop, dylib) whose results are double / long long / float / unsigned long
+struct HostCbSeen
+{
+  int runs = 0;
+  void* sandbox = nullptr;
+  uint64_t a = 0, b = 0;
+};
+static HostCbSeen g_hcb;
+static uint64_t g_hcb_ret;
+template<class SB>
+static rlbox::tainted<double, SB> hcb_d(rlbox::rlbox_sandbox<SB>& sb, rlbox::tainted<double, SB> a, rlbox::tainted<float, SB> b)
+{
+  g_hcb.runs++;
+  g_hcb.sandbox = &sb;
+  g_hcb.a = dbits(a.UNSAFE_unverified());
+  g_hcb.b = fbits(b.UNSAFE_unverified());
+  double r;
+  memcpy(&r, &g_hcb_ret, 8);
+  return r;
+}
+template<class SB>
+static rlbox::tainted<long long, SB> hcb_ll(rlbox::rlbox_sandbox<SB>& sb, rlbox::tainted<long long, SB> a, rlbox::tainted<unsigned char, SB> b)
+{
+  g_hcb.runs++;
+  g_hcb.sandbox = &sb;
+  g_hcb.a = (uint64_t)a.UNSAFE_unverified();
+  g_hcb.b = b.UNSAFE_unverified();
+  return (long long)g_hcb_ret;
+}
+template<class SB>
+static rlbox::tainted<float, SB> hcb_f(rlbox::rlbox_sandbox<SB>& sb, rlbox::tainted<float, SB> a)
+{
+  g_hcb.runs++;
+  g_hcb.sandbox = &sb;
+  g_hcb.a = fbits(a.UNSAFE_unverified());
+  float r;
+  uint32_t bits = (uint32_t)g_hcb_ret;
+  memcpy(&r, &bits, 4);
+  return r;
+}
+template<class SB>
+static rlbox::tainted<unsigned long, SB> hcb_ul(rlbox::rlbox_sandbox<SB>& sb, rlbox::tainted<unsigned long, SB> a, rlbox::tainted<short, SB> b)
+{
+  g_hcb.runs++;
+  g_hcb.sandbox = &sb;
+  g_hcb.a = a.UNSAFE_unverified();
+  g_hcb.b = (uint64_t)(int64_t)b.UNSAFE_unverified();
+  return (unsigned long)g_hcb_ret;
+}
+
 enum Kind
 {
   I_INTS,
@@ -358,11 +412,12 @@ enum Kind
   I_FNRET,
   I_BYNAME,
   I_CBTYPES,
+  H_CBRET,
   K_COUNT
 };
 static const char* kKind[] = { "ints",   "fp",     "enum", "ptrs",    "fn",     "struct",    "ret_struct",   "void",        "many",
                                "u",      "addr",   "destroy", "create", "dylib_invoke", "dylib_destroy", "dylib_create", "noop_invoke", "lookup_fails", "small_types",
-                               "fn_pointer_in_and_out", "lookup_by_transient_name", "callback_scalar_kinds" };
+                               "fn_pointer_in_and_out", "lookup_by_transient_name", "callback_scalar_kinds", "host_abi_callback_result_kinds" };
 static_assert(sizeof(kKind) / sizeof(kKind[0]) == K_COUNT);
 
 typedef __int128 i128;
@@ -401,7 +456,7 @@ struct InvokeWorld : World
     int nsbx = (int)r.range(1, 3);
     p.cfg = { nsbx, r.chance(1, 2) };
     int n = (int)r.range(4, thorough ? 50 : 30);
-    std::vector<unsigned> w = { 10, 4, 4, 6, 8, 5, 5, 4, 4, 8, 8, 3, 4, 6, 2, 3, 2, 5, 9, 6, 6, 7 };
+    std::vector<unsigned> w = { 10, 4, 4, 6, 8, 5, 5, 4, 4, 8, 8, 3, 4, 6, 2, 3, 2, 5, 9, 6, 6, 7, 5 };
     for (auto& x : w)
       if (r.chance(1, 6))
         x = 0;
@@ -1100,6 +1155,87 @@ struct InvokeWorld : World
       C->violate("C12", "wrong_result_delivered_to_guest@callback_scalar_kinds", "callback returned %lu, guest received %u, application got %lu (%s)", retv, g_callc_guest_got, got, oname(o));
   }
 
+  // C12 on the real host-ABI backends: callbacks returning double / long long / float / unsigned long
+  template<class SB, bool ByName>
+  void host_cbret(rlbox::rlbox_sandbox<SB>& sb, const Op& op, const char* party)
+  {
+    Rng r((uint64_t)op.a[2]);
+    int kind = (int)r.below(4);
+    g_hcb = HostCbSeen();
+    static const uint64_t dbl[] = { 0, 0x8000000000000000ULL, 0x3ff8000000000000ULL, 0x7fefffffffffffffULL, 1, 0xc05edd2f1a9fbe77ULL };
+    static const uint32_t flt[] = { 0, 0x80000000u, 0x3fc00000u, 0x7f7fffffu, 1, 0xc2f6e979u };
+    uint64_t a = 0, b = 0, want_ret = 0, got = 0;
+    Outcome o = attempt([&] {
+      if (kind == 0) {
+        a = dbl[r.below(6)];
+        b = flt[r.below(6)];
+        g_hcb_ret = dbl[r.below(6)];
+        double av, rv;
+        float bv;
+        uint32_t b32 = (uint32_t)b;
+        memcpy(&av, &a, 8);
+        memcpy(&bv, &b32, 4);
+        auto cb = sb.register_callback(hcb_d<SB>);
+        double res;
+        if constexpr (ByName)
+          res = sb.invoke_sandbox_function(g_call_d, cb, av, bv).UNSAFE_unverified();
+        else
+          res = sb.template INTERNAL_invoke_with_func_ptr<decltype(g_call_d)>("g_call_d", reinterpret_cast<void*>(&g_call_d), cb, av, bv).UNSAFE_unverified();
+        memcpy(&rv, &g_hcb_ret, 8);
+        got = dbits(res);
+        want_ret = dbits(rv + 0.5);
+      } else if (kind == 1) {
+        a = (uint64_t)(long long)pick_int(r, 64, true);
+        b = (uint64_t)r.below(256);
+        g_hcb_ret = (uint64_t)(long long)pick_int(r, 64, true);
+        auto cb = sb.register_callback(hcb_ll<SB>);
+        long long res;
+        if constexpr (ByName)
+          res = sb.invoke_sandbox_function(g_call_ll, cb, (long long)a, (unsigned char)b).UNSAFE_unverified();
+        else
+          res = sb.template INTERNAL_invoke_with_func_ptr<decltype(g_call_ll)>("g_call_ll", reinterpret_cast<void*>(&g_call_ll), cb, (long long)a, (unsigned char)b).UNSAFE_unverified();
+        got = (uint64_t)res;
+        want_ret = (uint64_t)((long long)((unsigned long long)g_hcb_ret - 1ULL));
+      } else if (kind == 2) {
+        a = flt[r.below(6)];
+        g_hcb_ret = flt[r.below(6)];
+        float av;
+        uint32_t a32 = (uint32_t)a;
+        memcpy(&av, &a32, 4);
+        auto cb = sb.register_callback(hcb_f<SB>);
+        float res;
+        if constexpr (ByName)
+          res = sb.invoke_sandbox_function(g_call_f, cb, av).UNSAFE_unverified();
+        else
+          res = sb.template INTERNAL_invoke_with_func_ptr<decltype(g_call_f)>("g_call_f", reinterpret_cast<void*>(&g_call_f), cb, av).UNSAFE_unverified();
+        got = fbits(res);
+        want_ret = (uint32_t)g_hcb_ret;
+      } else {
+        a = (uint64_t)pick_int(r, 64, false);
+        b = (uint64_t)(int64_t)(short)pick_int(r, 16, true);
+        g_hcb_ret = (uint64_t)pick_int(r, 64, false);
+        auto cb = sb.register_callback(hcb_ul<SB>);
+        unsigned long res;
+        if constexpr (ByName)
+          res = sb.invoke_sandbox_function(g_call_ul, cb, (unsigned long)a, (short)(int64_t)b).UNSAFE_unverified();
+        else
+          res = sb.template INTERNAL_invoke_with_func_ptr<decltype(g_call_ul)>("g_call_ul", reinterpret_cast<void*>(&g_call_ul), cb, (unsigned long)a, (short)(int64_t)b).UNSAFE_unverified();
+        got = res;
+        want_ret = g_hcb_ret ^ 1ULL;
+      }
+    });
+    C->ev("host_abi_callback_result_kinds %s kind %d -> %s", party, kind, oname(o));
+    C->probe("host_abi_callback_with_non_long_result");
+    if (o != OK) {
+      C->violate("C12", "callback_call_fails@host_abi_callback_result_kinds", "%s kind %d: %s: %s", party, kind, oname(o), g_last_abort_msg.c_str());
+      return;
+    }
+    if (g_hcb.runs != 1 || g_hcb.sandbox != &sb || g_hcb.a != a || (kind != 2 && g_hcb.b != b))
+      C->violate("C12", "wrong_arguments@host_abi_callback_result_kinds", "%s kind %d: %d runs, a %llx/%llx b %llx/%llx", party, kind, g_hcb.runs, (unsigned long long)g_hcb.a, (unsigned long long)a, (unsigned long long)g_hcb.b, (unsigned long long)b);
+    else if (got != want_ret)
+      C->violate("C12", "wrong_result_delivered_to_guest@host_abi_callback_result_kinds", "%s kind %d: application got %llx, expected %llx", party, kind, (unsigned long long)got, (unsigned long long)want_ret);
+  }
+
   void sim_create(SbxM& m, int lib)
   {
     Outcome o = attempt([&] { m.sb->create_sandbox(lib); });
@@ -1314,6 +1450,14 @@ struct InvokeWorld : World
             break; // the name was already cached through another path
           if (o != ABORT || g_glog.size() != before)
             c.violate("C11", "failed_symbol_lookup_did_not_abort_cleanly@lookup_fails", "outcome %s, %zu guest records", oname(o), g_glog.size() - before);
+          break;
+        }
+        case H_CBRET: {
+          DM& d = D[(uint64_t)op.a[0] % 2];
+          if ((op.a[1] & 1) && d.created)
+            host_cbret<DSbx, true>(*d.sb, op, "dylib");
+          else
+            host_cbret<NSbx, false>(nsb, op, "noop");
           break;
         }
         case N_INVOKE: {
